@@ -147,13 +147,19 @@ func evalCreds(c *Ctx, tok string, seedKP nkeys.KeyPair, nl string, lead string)
 }
 
 func runC15(c *Ctx) {
-	c.Res.Rule = "user tokens from ~150 to ~4000 characters (every base64url character class occurs) x user / account / operator seeds x LF / CRLF x leading blank lines: FormatUserConfig -> ParseDecoratedJWT / ParseDecoratedNKey / ParseDecoratedUserNKey must return the same token text and a key pair with the same seed and public key; DecorateJWT of every claim kind parses back unchanged, also when the returned slice is kept and parsed again after later DecorateJWT / FormatUserConfig calls; a bare token parses to itself; non-user tokens / seeds are refused; the user-only key parser refuses operator and account seeds. The model's hand matcher is compared with Go's regexp on structured adversarial text (dash runs of 2/3/5/6, dashes inside token lines, missing final newline, CR placement). non-trivial = distinct texts."
+	c.Res.Rule = "user tokens from ~150 to ~4000 characters, and every fifteenth one very long (about 64 KiB to 130 KiB) (every base64url character class occurs) x user / account / operator seeds x LF / CRLF x leading blank lines: FormatUserConfig -> ParseDecoratedJWT / ParseDecoratedNKey / ParseDecoratedUserNKey must return the same token text and a key pair with the same seed and public key; DecorateJWT of every claim kind parses back unchanged, also when the returned slice is kept and parsed again after later DecorateJWT / FormatUserConfig calls; a bare token parses to itself; non-user tokens / seeds are refused; the user-only key parser refuses operator and account seeds. The model's hand matcher is compared with Go's regexp on structured adversarial text (dash runs of 2/3/5/6, dashes inside token lines, missing final newline, CR placement). non-trivial = distinct texts."
 	// ---- round trips
 	for i := 0; i < c.N(60, 3000); i++ {
 		u := jwt.NewUserClaims(pubOf(kpN('U', c.R.Intn(4))))
 		// vary the token length: names and permission lists of random size
 		u.Name = strings.Repeat(c.R.Pick(strAlphabet)+"x", c.R.Intn(40))
-		for k := 0; k < c.R.Intn(60); k++ {
+		nsub := c.R.Intn(60)
+		if i%15 == 7 {
+			// very long tokens: past 64 KiB (line-oriented readers with a fixed buffer) 
+			nsub = []int{1400, 1500, 2800}[c.R.Intn(3)]
+			c.Count("very-long-token")
+		}
+		for k := 0; k < nsub; k++ {
 			u.Pub.Allow.Add(fmt.Sprintf("subj.%d.%s", k, strings.Repeat("y", c.R.Intn(30))))
 		}
 		tok, err := u.Encode(kpN('A', c.R.Intn(3)))
